@@ -1,14 +1,8 @@
 #!/bin/bash
-# usage: try_mutant.sh <patch.diff> [props...]   -- apply to /repo, run quick checks, undo
+# usage: try_mutant.sh <patch.diff>   -- apply to /repo, evaluate every property's quick rule set in one run, undo
 set -u
-patch=$1; shift
-props=${@:-C01 C02 C03 C04 C05 C06 C07 C08 C10 C11 C12 C13 C14 C15 C16 C17 C18 C19}
+patch=$1
 cd /repo && git apply "$patch" || { echo "PATCH DOES NOT APPLY"; exit 3; }
 cd /verif
-fired=""
-for p in $props; do
-  out=$(./check $p 2>&1); rc=$?
-  if [ $rc -ne 0 ]; then fired="$fired $p($rc)"; echo "--- $p rc=$rc"; echo "$out" | grep -E "violated:|VIOLATION|CHECK-ERROR" | cut -c1-260 | head -6; fi
-done
+./check ALL 2>&1 | cut -c1-300
 cd /repo && git checkout -- . && git status --short | head -3
-echo "FIRED:$fired"
